@@ -751,6 +751,49 @@ def check_layout(idx: ProgramIndex, rep: Report):
             "point/task strides are (num_tasks, 1) when interleaved and (1, num_data) otherwise, on both covariance axes" if ok else "stride table of to_data_independent_dist: %s" % "; ".join(sorted(set(tprobs))[:3]), {"strides": {str(k): str(v) for k, v in strides.items()}})
 
 
+def layout_kept_outside(idx: ProgramIndex, rep: Report):
+    """Outside the distribution classes a distribution that may be a MultitaskMultivariateNormal is re-built with
+    `d.__class__(mean, covariance)` in the prediction code.  For a multitask distribution that runs the constructor with the default
+    interleaved=True whatever d's layout is (the same defect as C11-3's inherited re-construction, one level up): the result carries
+    the covariance of a task-major prior under the label 'interleaved'.  A site is fine if it passes `interleaved=` from d, goes through
+    the construction hook (`d._new_like`), or if the function rejects non-interleaved input.  Judged where the re-built object is the
+    model's prior / joint output (`train_prior_dist`, the output of the model's forward): those are multitask for multitask models."""
+    rep.rule("C11-5", "prediction code re-builds a possibly-multitask distribution with its layout: `d.__class__(mean, cov)` passes interleaved=d._interleaved, uses d._new_like, or the function rejects non-interleaved input")
+    n = 0
+    for fi in sorted(idx.all_functions(), key=lambda f: (f.module.name, f.qualname)):
+        if fi.module.name.startswith(idx.package + ".distributions"):
+            continue
+        sites = []
+        for c in calls_in(fi.node):
+            f = c.func
+            if isinstance(f, ast.Attribute) and f.attr == "__class__" and chain(f.value) not in (None, "self") :
+                base = chain(f.value) or ""
+                if base.split(".")[-1] in ("train_prior_dist", "full_output", "function_dist", "output", "joint_dist") or base.endswith("prior_dist"):
+                    sites.append((c, base))
+        if not sites:
+            continue
+        # only code that handles multitask distributions at all: the enclosing class (or function) speaks about tasks.  Strategies that
+        # can never receive a multitask prior (their kernels produce n x n covariances) re-build plain MultivariateNormals only
+        scope = fi.cls.node if fi.cls is not None else fi.node
+        multitask_aware = any((isinstance(x, ast.Name) and ("task" in x.id.lower())) or (isinstance(x, ast.Attribute) and "task" in x.attr.lower()) for x in ast.walk(scope))
+        if not multitask_aware:
+            continue
+        rejects = any(isinstance(x, ast.If) and any(isinstance(y, ast.Attribute) and y.attr in ("_interleaved", "interleaved") or (isinstance(y, ast.Constant) and y.value == "_interleaved") for y in ast.walk(x.test))
+                      and any(isinstance(z, ast.Raise) for b_ in x.body for z in ast.walk(b_)) for x in ast.walk(fi.node))
+        bad = []
+        for c, base in sites:
+            kw = {k.arg for k in c.keywords}
+            hooked = False
+            if "interleaved" in kw or rejects or hooked:
+                continue
+            bad.append("`%s` (line %d)" % (" ".join(src(c).split())[:60], c.lineno))
+        n += 1
+        rep.add("C11-5", "%s:%s[re-construction of the prior / joint output]" % (fi.module.name, fi.qualname), fi.where, not bad,
+                "%d re-construction(s), layout passed on / consulted" % len(sites) if not bad else
+                ", ".join(bad) + ": a MultitaskMultivariateNormal with interleaved=False (task-major covariance, e.g. from_independent_mvns or a Kronecker prior built task-major) is re-built as interleaved; the slices at num_train and the returned posterior then pair means and covariances of different (point, task) entries", {"sites": len(sites)})
+    rep.floor("C11-5", "functions re-building the prior / joint output", n, 3)
+
+
 def run(idx: ProgramIndex, rep: Report, tier: str):
     rep.explanation = (
         "C11-1/2: MultitaskMultivariateNormal.__getitem__ is typed path by path in a small units-of-measure system (ROW, COL, "
@@ -765,6 +808,7 @@ def run(idx: ProgramIndex, rep: Report, tier: str):
     rep.rule("C11-3", "every layout-sensitive accessor converts between flat storage order and natural (n, t) layout correctly for both layouts; flag propagated")
     check_getitem(idx, rep)
     check_layout(idx, rep)
+    layout_kept_outside(idx, rep)
     from .common_alias import aliasing_obligations
     rep.rule("C11-4", "no in-place aliasing hazard in MultitaskMultivariateNormal (storage/version domain)")
     aliasing_obligations(idx, rep, "C11-4", list(idx.cls(MOD, "MultitaskMultivariateNormal").methods.values()), 10, "MultitaskMultivariateNormal methods interpreted")
